@@ -58,6 +58,45 @@ def num_table(rng):
         F("lowest", typ, -mx); F("min", typ, mn); F("denorm", typ, dn); F("third", typ, 1.0 / 3.0)
         F("r1", typ, rng.uniform(-1e6, 1e6)); F("r2", typ, rng.random() * 10.0 ** rng.randrange(-30, 30))
     F("1e22", "f64", 1e22); F("pi", "f64", 3.141592653589793); F("big-int", "f64", 2.0 ** 63)
+    # values that need the maximal number of significant digits (9 / 17) to be read back exactly:
+    # per seed, one from each of 8 binades (tiny .. huge exponents, both signs)
+    def needs_all_digits(v, typ):
+        if typ == "f32":
+            return f32(float("%.7e" % v)) != v          # 8 significant digits are not enough
+        return float("%.15e" % v) != v                  # 16 significant digits are not enough
+
+    def bits_step(v, typ, up):
+        """the neighbouring value of the type (nextafter)"""
+        fmt, ifmt = ("<f", "<I") if typ == "f32" else ("<d", "<Q")
+        b = struct.unpack(ifmt, struct.pack(fmt, v))[0]
+        b += 1 if (v > 0) == up else -1
+        return struct.unpack(fmt, struct.pack(ifmt, b))[0]
+    for typ, exps, tag in (("f32", (-120, -30, -3, 0, 6, 20, 57, 120), "d9"),
+                           ("f64", (-1000, -300, -30, -3, 0, 20, 300, 1000), "d17")):
+        for n, e in enumerate(exps):
+            sign = -1.0 if n % 2 else 1.0
+            while True:
+                v = sign * (1.0 + rng.random()) * 2.0 ** e
+                if typ == "f32":
+                    v = f32(v)
+                if needs_all_digits(v, typ):
+                    break
+            F(tag + "abcdefgh"[n], typ, v)
+        one, tenth = 1.0, (f32(0.1) if typ == "f32" else 0.1)
+        mx = 3.4028234663852886e38 if typ == "f32" else 1.7976931348623157e308
+        mn = 1.1754943508222875e-38 if typ == "f32" else 2.2250738585072014e-308
+        F("1+", typ, bits_step(one, typ, True)); F("1-", typ, bits_step(one, typ, False))
+        F("0.1+", typ, bits_step(tenth, typ, True)); F("0.1-", typ, bits_step(tenth, typ, False))
+        F("max-", typ, bits_step(mx, typ, False)); F("min+", typ, bits_step(mn, typ, True))
+        for k in (3, 4, 5, 6):                          # random finite bit patterns
+            while True:
+                if typ == "f32":
+                    v = struct.unpack("<f", struct.pack("<I", rng.getrandbits(32)))[0]
+                else:
+                    v = struct.unpack("<d", struct.pack("<Q", rng.getrandbits(64)))[0]
+                if v == v and abs(v) != float("inf"):
+                    break
+            F("r%d" % k, typ, v)
     T["#a"] = ("i32", "42", "I42")
     T["true"] = ("bool", "1", "B1")
     T["false"] = ("bool", "0", "B0")
